@@ -12,14 +12,18 @@ def nontrivial(k):
 
 
 def run(tier, seed):
+    io = session.base(InitWorld="empty", Kinds=["Tattach", "Tlcreate", "Tucreate", "Tlopen", "Tread", "Twrite", "Tfsync", "Treaddir",
+                                               "Tclunk", "Twalk", "Tmkdir", "Txattrcreate", "Txattrwalk"])
     if tier == "quick":
-        mc = [("full-d4", session.base(BadNames=[".."], AttachNames=["", "a/b"], MaxDepth=4))]
-        gen = [("full-d3", session.base(BadNames=[".."], AttachNames=["", "a/b"], MaxDepth=3), "bfs")]
+        mc = [("full-d4", session.base(BadNames=[".."], AttachNames=["", "a/b"], MaxDepth=4)), ("io-d4", dict(io, MaxDepth=4))]
+        gen = [("full-d3", session.base(BadNames=[".."], AttachNames=["", "a/b"], MaxDepth=3), "bfs"),
+               ("io-d3", dict(io, MaxDepth=3), "bfs")]
     else:
-        mc = [("full-d4", session.base(BadNames=[".."], AttachNames=["", "a/b"], MaxDepth=4)),
+        mc = [("full-d4", session.base(BadNames=[".."], AttachNames=["", "a/b"], MaxDepth=4)), ("io-d5", dict(io, MaxDepth=5)),
               ("mix-d4", session.base(Names=["a", "b", "s", "k"], InitWorld="mix", MaxDepth=4,
                                       Kinds=[k for k in session.ALL_KINDS if not k.startswith("Tu")]))]
-        gen = [("full-d4", session.base(BadNames=[".."], AttachNames=["", "a/b"], MaxDepth=4), "bfs")]
+        gen = [("full-d4", session.base(BadNames=[".."], AttachNames=["", "a/b"], MaxDepth=4), "bfs"),
+               ("io-d4", dict(io, MaxDepth=4), "bfs")]
     return session.run("C04", tier, seed, mc, gen, RULE, nontrivial)
 
 
